@@ -258,7 +258,7 @@ def extract():
                     local.update(x.names)
             usable = {k: v for k, v in consts.items() if k not in local}
             methods[n.name] = ast.fix_missing_locations(InlineConsts(usable).visit(n)) if n.name.endswith("_command") else n
-    found = [n for n in methods if n.endswith("_command")]
+    found = [n for n in methods if n.endswith("_command") and not n.startswith("_")]
     if sorted(found) != sorted(COMMANDS):
         raise TranslationError(f"command methods changed: {sorted(set(found) ^ set(COMMANDS))}")
     return [translate_method(methods[n]) for n in COMMANDS]
